@@ -4,6 +4,7 @@ def b_Occupancy_create_node : CR.SrcW.Builder where
   kind := .node
   tag := "occupancy"
   xsd := "occupancy"
+  path := []
   parent := ""
   attrs := []
   gattrs := []
@@ -18,7 +19,8 @@ def b_Occupancy_create_node_time : CR.SrcW.Builder where
   key := "OccupancyXMLNode.create_node/time"
   kind := .node
   tag := "time"
-  xsd := ""
+  xsd := "occupancy"
+  path := ["time"]
   parent := "OccupancyXMLNode.create_node"
   attrs := []
   gattrs := []
@@ -33,7 +35,8 @@ def b_Occupancy_create_node_shape : CR.SrcW.Builder where
   key := "OccupancyXMLNode.create_node/shape"
   kind := .node
   tag := "shape"
-  xsd := ""
+  xsd := "occupancy"
+  path := ["shape"]
   parent := "OccupancyXMLNode.create_node"
   attrs := []
   gattrs := []
